@@ -47,6 +47,11 @@ CHECKS = {
             "Fault enumeration: for every generated verified workspace every single-leaf corruption (number +-1 ulp/+1, string edit, element removed/duplicated/swapped, key renamed) is enumerated and must change the digest and fail verify(); document-level properties are searched with Hypothesis.",
             "Trusted: vlib/jsonpatch_ref.py (RFC 6902) and hashlib; 1 and 1.0 are the same value-tuple entry.",
             "DESIGN.md#c17"),
+    "C16": ("exploration",
+            "Hypothesis-generated workspace pairs with a generated overlap class x join mode x merge flag, prune/rename selections and permutations; oracles: independent model of the documented join semantics, likelihood factorisation (metamorphic, by parameter name), independently filtered spec, inverse rename, sort canonicity, schema validity, input non-mutation",
+            "Generated-input search over overlap patterns (disjoint / identical / conflicting channels, observations, measurements, parameter configs, versions) crossed with all join modes; results are compared structurally against an independent join model and numerically through the likelihood of inputs and outputs.",
+            "Trusted: the join model in props/c16.py written from the docstrings; likelihood relations checked at one generated point per case (1e-9 relative); factorisation checked for join='outer' (left/right outer are documented as unsafe).",
+            "DESIGN.md#c16"),
 }
 
 NOT_YET = "check not built yet in this session (work in progress; the design in DESIGN.md section 5 applies)"
